@@ -22,6 +22,9 @@ func (st *State) writeChan(ch ChanV, cd *ChanData) {
 }
 
 func (st *State) block(why string) {
+	if st.ex.runPendingGo(st) {
+		panic(yieldReq{}) // other goroutines of the model get to run before this one is declared stuck
+	}
 	st.status = Blocked
 	st.abortM = why + st.where()
 	panic(abort{"stop", "blocked"})
